@@ -573,6 +573,45 @@ func (m *mutator) leafIn() *tref {
 	return named("SCALAR", scalarNames[m.r.Intn(2)])
 }
 
+// isKeyField: the key field of an object ("id"). The gateway passes its VALUE on as
+// the federated key, and schemabuilder derives both the field and the key input from
+// the same Go struct field, so its type and arguments are never varied on their own
+// (it may still be removed: thunder has a validation for that).
+func isKeyField(t *typeDef, i int) bool {
+	return t.Name != "Query" && t.Name != "Mutation" && t.Fields[i].Name == "id"
+}
+
+// keyTypeMismatches lists federated key input fields whose type differs from the
+// object's field of the same name (a generator invariant, see isKeyField).
+func keyTypeMismatches(d *schemaDef) []string {
+	var out []string
+	fed := d.Types["Federation"]
+	if fed == nil {
+		return nil
+	}
+	for _, f := range fed.Fields {
+		i := strings.Index(f.Name, "_")
+		if i < 0 || len(f.Args) == 0 {
+			continue
+		}
+		o := d.Types[f.Name[i+1:]]
+		in := d.Types[f.Args[0].Type.root().Name]
+		if o == nil || in == nil {
+			continue
+		}
+		for _, k := range in.InputFields {
+			of := o.field(k.Name)
+			if of == nil {
+				continue // refused by thunder (Invalid federation key / not a field on the object)
+			}
+			if of.Type.String() != k.Type.String() || len(of.Args) > 0 {
+				out = append(out, fmt.Sprintf("%s.%s: %s (args %d) vs key input %s.%s: %s", o.Name, k.Name, of.Type, len(of.Args), in.Name, k.Name, k.Type))
+			}
+		}
+	}
+	return out
+}
+
 // pickField returns a random (type, field index) among object fields that are
 // not federation plumbing.
 func (m *mutator) pickField(includeRoots bool) (*typeDef, int) {
@@ -629,7 +668,7 @@ func (m *mutator) apply() string {
 		return "add_field"
 	case op < 34: // remove an argument
 		t, i := m.pickField(true)
-		if t == nil || len(t.Fields[i].Args) == 0 {
+		if t == nil || len(t.Fields[i].Args) == 0 || isKeyField(t, i) {
 			return ""
 		}
 		f := &t.Fields[i]
@@ -641,7 +680,7 @@ func (m *mutator) apply() string {
 		return "rm_arg"
 	case op < 43: // add an argument (mostly optional)
 		t, i := m.pickField(true)
-		if t == nil {
+		if t == nil || isKeyField(t, i) {
 			return ""
 		}
 		f := &t.Fields[i]
@@ -741,7 +780,7 @@ func (m *mutator) apply() string {
 		return kind
 	case op < 85: // flip output nullability at some nesting level
 		t, i := m.pickField(true)
-		if t == nil {
+		if t == nil || isKeyField(t, i) {
 			return ""
 		}
 		flipLevel(t.Fields[i].Type, -1, r)
@@ -765,7 +804,7 @@ func (m *mutator) apply() string {
 		return "flip_input_field_null"
 	case op < 97: // wrap / unwrap a list
 		t, i := m.pickField(true)
-		if t == nil || r.Intn(3) != 0 {
+		if t == nil || r.Intn(3) != 0 || isKeyField(t, i) {
 			return ""
 		}
 		f := &t.Fields[i]
